@@ -481,8 +481,10 @@ def _etags_of(impl, resp, base, data_tag=None, bodies=None, view=""):
     return out, ms[1]
 
 
-def views(impl, cpath, kind):
-    """All the views of the members' ETags the server offers for one collection."""
+def views(impl, cpath, kind, foreign=()):
+    """All the views of the members' ETags the server offers for one collection.  `foreign`: paths of
+    resources of the same kind in OTHER collections; the multiget sent to this collection asks for
+    them too, and must answer for each what GET on that path serves (or 404)."""
     base = impl.target(cpath + "/")
     res = {}
     hdr = {"Depth": "1", "Content-Type": "text/xml"}
@@ -506,10 +508,23 @@ def views(impl, cpath, kind):
             bodies[n] = (g.header("ETag"), g.body)
     data_tag = "{%s}%s" % (ns, data)
     hrefs = "".join("<D:href>%s</D:href>" % (base + urllib.parse.quote(n)) for n in names)
+    fgets = {}
+    for fp in foreign:
+        g = impl.srv.request("GET", impl.target(fp), {})
+        key = "?" + urllib.parse.unquote(impl.target(fp))
+        fgets[key] = impl.sym_etag(g.header("ETag")) if g.status == 200 and g.header("ETag") else "404"
+        if g.status == 200:
+            bodies[key] = (g.header("ETag"), g.body)
+        hrefs += "<D:href>%s</D:href>" % impl.target(fp)
     body = ('<?xml version="1.0"?><X:%s-multiget xmlns:D="DAV:" xmlns:X="%s"><D:prop><D:getetag/><X:%s/></D:prop>%s'
             '</X:%s-multiget>' % (pre, ns, data, hrefs, pre)).encode()
     r = impl.srv.request("REPORT", base, hdr, body)
     res["multiget"], _ = _etags_of(impl, r, base, data_tag, bodies, "multiget")
+    if res["multiget"] is not None:
+        got = {k: res["multiget"].pop(k) for k in list(res["multiget"]) if k.startswith("?")}
+        if got != fgets:
+            impl.notes.append("C02:view-multiget-answers-for-a-resource-of-another-collection-differ-from-get %r vs %r"
+                              % (got, fgets))
     flt = '<X:filter><X:comp-filter name="VCALENDAR"/></X:filter>' if kind == "calendar" else "<X:filter/>"
     body = ('<?xml version="1.0"?><X:%s-query xmlns:D="DAV:" xmlns:X="%s"><D:prop><D:getetag/><X:%s/></D:prop>%s</X:%s-query>'
             % (pre, ns, data, flt, pre)).encode()
@@ -566,6 +581,7 @@ def execute_http(frontend, prefix, template, toks, attrs, audit_paths, colls=(CA
     impl = HttpImpl(frontend, prefix, toks, root, **kw)
     lines = list(impl.setup_lines())
     hist = {}
+    propvals = {}
     known_colls = list(colls)
     issued = {}
 
@@ -621,7 +637,9 @@ def execute_http(frontend, prefix, template, toks, attrs, audit_paths, colls=(CA
             for cp, kind in ((CAL, "calendar"), (BOOK, "addressbook")):
                 if cp not in known_colls:
                     continue
-                vs = views(impl, cp, kind)
+                ext = ".ics" if kind == "calendar" else ".vcf"
+                vs = views(impl, cp, kind, [p for p in audit_paths if p.endswith(ext) and not p.startswith(cp + "/")
+                                            and "/.git/" not in p])
                 ref = vs.get("propfind")
                 for vname, d in vs.items():
                     if d is None:
@@ -641,8 +659,8 @@ def execute_http(frontend, prefix, template, toks, attrs, audit_paths, colls=(CA
                 obs, sha = impl.tags(cp)
                 lines.append("TAGS %s | %s" % (enc(cp), obs))
                 if sha is not None:
-                    # no request of these histories changes metadata: within one incarnation of a
-                    # collection the tag is a function of the members, whatever was read in between
+                    # within one incarnation of a collection and between two property changes the tag
+                    # is a function of the members, whatever was read in between
                     key = (cp, generation.get(cp, 0), lines[-2].split(" | ", 1)[1])
                     if rawtags.setdefault(key, sha) != sha:
                         impl.notes.append("C08:same-members-different-tag %s: %s then %s for %s" % (
@@ -704,6 +722,8 @@ def execute_http(frontend, prefix, template, toks, attrs, audit_paths, colls=(CA
                 if obs == "deleted" and path in known_colls:
                     known_colls.remove(path)
                     generation[path] = generation.get(path, 0) + 1
+                    for k_ in [k_ for k_ in propvals if k_[0] == path]:
+                        del propvals[k_]
             elif kind in ("MKCOL", "MKCALENDAR"):
                 _, path = op
                 obs = impl.mk(kind, path)
@@ -746,9 +766,27 @@ def execute_http(frontend, prefix, template, toks, attrs, audit_paths, colls=(CA
                 _, cpath, rkind, sels = op
                 lines.append(impl.multiget(cpath, rkind, sels))
                 continue
+            elif kind == "SETPROP":
+                _, cpath, prop, val = op
+                if cpath not in known_colls:
+                    continue
+                r = impl.srv.request("PROPPATCH", impl.target(cpath + "/"), {"Content-Type": "text/xml"},
+                                     ('<D:propertyupdate xmlns:D="DAV:"><D:set><D:prop><D:%s>%s</D:%s></D:prop></D:set>'
+                                      '</D:propertyupdate>' % (prop, val.replace("&", "&amp;").replace("<", "&lt;"), prop)
+                                      ).encode("utf-8"))
+                ok = r.status == 207 and b"200 OK" in r.body
+                lines.append("SETPROP %s %s %s | %s" % (enc(cpath), enc(prop), enc(val), "set" if ok else "other%d" % r.status))
+                # the metadata file is part of what the tag covers: a new epoch for the raw-tag monitor
+                generation[cpath] = generation.get(cpath, 0) + 1
             elif kind == "restart":
+                pre_tags = {cp: impl.tags(cp)[1] for cp in known_colls} if check_tags else {}
                 impl.srv.restart()
                 lines.append("restart | restart")
+                for cp, t0 in pre_tags.items():
+                    t1 = impl.tags(cp)[1]
+                    if t0 != t1:
+                        impl.notes.append("C08:tag-changed-by-a-restart %s: %s before, %s after, no request in between"
+                                          % (cp, t0, t1))
             audit()
             if git_checks:
                 after = commit_counts()
@@ -756,6 +794,17 @@ def execute_http(frontend, prefix, template, toks, attrs, audit_paths, colls=(CA
                     nlines += 1          # skip the attr lines emitted before the operation
                 obs = lines[nlines].split(" | ", 1)[1] if len(lines) > nlines and " | " in lines[nlines] else ""
                 acked = kind in ("PUT", "POST", "DELETE") and obs.split(" ")[0] in ("created", "updated", "createdat", "deleted")
+                if kind == "SETPROP" and obs == "set":
+                    # an acknowledged property change: exactly one commit if the value is new, none otherwise
+                    cp_, prop_, val_ = op[1], op[2], op[3]
+                    changed = propvals.get((cp_, prop_)) != val_
+                    propvals[(cp_, prop_)] = val_
+                    n0_, n1_ = before.get(cp_), after.get(cp_)
+                    if n0_ is not None and n1_ is not None and n1_ - n0_ != (1 if changed else 0):
+                        impl.notes.append("C09:property-change-made-%d-commits %s: `%s` (%s value) took the collection from %d to %d commits"
+                                          % (n1_ - n0_, cp_, lines[nlines][:120], "new" if changed else "same", n0_, n1_))
+                    before = dict(before)
+                    before[cp_] = after.get(cp_)
                 for cp, n0 in before.items():
                     n1 = after.get(cp)
                     if n1 is None:
@@ -797,7 +846,10 @@ def compare_http(lines):
     return dis, viol
 
 
-NAMES = {CAL: ["a.ics", "b.ics", "c d.ics", "release.github.ics", ".draft.ics"], BOOK: ["k.vcf", "team.gitlab.vcf"]}
+# `c%20d.ics` / `a%41.vcf` are names with a literal percent sign: decoded once more they would be the
+# names of their neighbours `c d.ics` / `aA.vcf`
+NAMES = {CAL: ["a.ics", "b.ics", "c d.ics", "c%20d.ics", "release.github.ics", ".draft.ics"],
+         BOOK: ["k.vcf", "team.gitlab.vcf", "a%41.vcf", "aA.vcf"]}
 
 
 def gen_http_template(rng, toks, length, profile="mixed"):
@@ -809,7 +861,11 @@ def gen_http_template(rng, toks, length, profile="mixed"):
     paths = [CAL + "/" + n for n in NAMES[CAL]] + [BOOK + "/" + n for n in NAMES[BOOK]]
     if profile in ("git", "mixed"):
         ops.append(("MKCOL", "/user/extra"))
-        paths += ["/user/extra/e1.ics", "/user/extra/e2.ics"]
+        paths += ["/user/extra/e1.ics", "/user/extra/e2.ics", "/user/extra/a.ics"]   # a.ics: a namesake
+        if profile == "mixed" and len(icals) >= 2 and rng.random() < 0.7:
+            # two members of two collections with one file name and different content
+            ops.append(("PUT", CAL + "/a.ics", "text/calendar", icals[0], "none", "none"))
+            ops.append(("PUT", "/user/extra/a.ics", "text/calendar", icals[1], "none", "none"))
     if profile == "tags":
         # a collection made by plain MKCOL (no type recorded) gets members too
         ops.append(("MKCOL", "/user/extra"))
@@ -819,6 +875,22 @@ def gen_http_template(rng, toks, length, profile="mixed"):
                 ("GET", "/user/probe/p.ics", "none"), ("DELETE", "/user/probe/p.ics", "none")]
     odd = [CAL + "/.git/z.ics", CAL + "/x/../a.ics", "/user/calendars/./calendar/b.ics", CAL + "//a.ics"]
     for _ in range(length):
+        if profile == "git" and rng.random() < 0.1:
+            # a property kept in the repository: a changed value is one commit, the same value none
+            ops.append(("SETPROP", rng.choice([CAL, CAL, BOOK, "/user/extra"]), "displayname",
+                        rng.choice(["Alpha", "Beta", "Gamma"])))
+            continue
+        if profile == "tags" and rng.random() < 0.12:
+            # a property change whose stored form is not the one a rewrite of the metadata file would
+            # produce (blanks are kept in the file and stripped on reading), followed by a restart:
+            # starting the server must not touch the collection
+            ops.append(("SETPROP", rng.choice([CAL, CAL, BOOK]), "displayname",
+                        rng.choice(["Work ", " Home", "Team\t", "plain", "a  b "])))
+            if rng.random() < 0.8:
+                ops.append(("restart",))
+        if profile == "sync" and ops and ops[-1][0] in ("PUT", "DELETE", "POST") and rng.random() < 0.35:
+            # a report after about every third write: each asks for the changes since every token issued
+            ops.append(("SYNC", CAL if rng.random() < 0.75 else BOOK, "all" if rng.random() < 0.8 else "empty"))
         r = rng.random()
         path = rng.choice(paths)
         if profile in ("mixed", "git") and rng.random() < (0.25 if profile == "git" else 0.06):
@@ -874,6 +946,18 @@ def gen_http_template(rng, toks, length, profile="mixed"):
         else:
             ops.append(("MKCOL" if rng.random() < 0.5 else "MKCALENDAR",
                         rng.choice(["/user/calendars/new", "/user/extra", "/nowhere/x", CAL])))
+    if profile == "sync":
+        # every history ends with tokens the server never issued
+        ops.append(("SYNC", CAL, "malformed"))
+        ops.append(("SYNC", rng.choice([CAL, BOOK]), "foreign"))
+    if profile == "cond":
+        # every path is read back under each kind of condition, with both methods (a path that does
+        # not exist at that point answers 404 whatever the condition)
+        for p in paths:
+            for m in ("GET", "HEAD"):
+                for s in rng.sample(["cur", "star", "list-cur", "list-cur2", "star-list"], 2) + \
+                        rng.sample(["stale", "other", "list-miss", "unquoted", "weak", "none"], 2):
+                    ops.append((m, p, s))
     return ops, paths
 
 
